@@ -589,6 +589,11 @@ def run_state_case(w: World, chk: C.Check, variables: dict, specs, supported: bo
             prepare(A)
     for k, v in variables.items():
         A.state[k] = v
+    # player input received through submit_inputs() lives in the variable `_inputs` (a string-keyed dict): it is game
+    # state like any other and must survive the round trip (every other case; deterministic in the label)
+    if sum(map(ord, label)) % 2 == 0:
+        with C.quiet():
+            A.submit_inputs({"reader_name": "Kate", "age": "33"})
     replay = {"kind": "state", "label": label, "variables": specs, "story": "STORY2_SRC" if story else "STORY_SRC",
               "how": "engine.state[name] = build(spec); save_state(); json.dumps; json.loads; load_state() in a fresh engine"}
     st_before = dict(A.state)
@@ -636,6 +641,9 @@ def run_state_case(w: World, chk: C.Check, variables: dict, specs, supported: bo
             d = (k, "compare-raises", f"{type(e).__name__}: {e}"[:100])
         if d:
             fail(f"value-lost:kind={d[1]}", f"after save -> JSON -> load, {d[0]} differs ({d[1]}): {d[2]}")
+    if A.state.get("_inputs") != B.state.get("_inputs"):
+        fail("value-lost:kind=submitted-inputs", f"_inputs was {A.state.get('_inputs')!r} when saved and is "
+                                                 f"{B.state.get('_inputs')!r} after the load")
     # ---- import bindings ----
     for name, kind in imports.items():
         if B.state.get(name) is not fresh[name]:
